@@ -65,8 +65,11 @@ impl Generator {
         // at this point, stack has no MARKs, just regular items
         // keep combining until we have exactly 1 item
         // use TUPLE2/TUPLE3 which don't require MARKs
+        // every iteration removes at least one item, so the initial depth bounds the loop
+        // (a fixed cap would leave items behind for pickles with tens of thousands of opcodes)
+        let max_steps = self.state.stack.len();
         let mut safety_counter = 0;
-        while self.state.stack.len() > 1 && safety_counter < 10000 {
+        while self.state.stack.len() > 1 && safety_counter < max_steps {
             safety_counter += 1;
 
             let stack_len = self.state.stack.len();
